@@ -111,7 +111,7 @@ def build(desc):
         else:
             co = CountingObjective(desc["obj"], box, mx, i)
             objs.append(co)
-            p = FunctionProblem(co, bounds=box.copy(), maximize=mx)
+            p = FunctionProblem(co, bounds=box.copy(), maximize=mx, **({"use_cache": True} if desc.get("use_cache") else {}))
         if desc.get("stats_wrapper"):
             from pyhms.core.problem import StatsGatheringProblem
 
@@ -261,17 +261,36 @@ def run_world(res, desc, tmpdir):
         try:
             if twin_step:
                 st = (np.random.get_state(), random.getstate())
-                loaded.run_step()
-                steps += 1
-                d_loaded = tree_digest(loaded)
+                n_twin = desc.get("twin_steps", 1)  # (some worlds compare several metaepochs: state that detaches only shows after an update)
+                d_loaded = []
+                c0_loaded = calls_of(loaded)
+                for _ in range(n_twin):
+                    if loaded.config.gsc(loaded):
+                        break
+                    loaded.run_step()
+                    steps += 1
+                    d_loaded.append(tree_digest(loaded))
+                real_loaded = sum(calls_of(loaded)) - sum(c0_loaded)
                 np.random.set_state(st[0])
                 random.setstate(st[1])
                 c_before = calls_of(loaded)
-                tree.run_step()
+                c0_live = calls_of(tree)
+                d_live = []
+                for _ in range(len(d_loaded)):
+                    tree.run_step()
+                    d_live.append(tree_digest(tree))
+                    k_extra = len(d_live) - 1
+                real_live = sum(calls_of(tree)) - sum(c0_live)
                 # (a module-level log is written by the live tree as well: not part of the restored tree's account)
                 base_calls = [b + (a1 - a0) for b, a0, a1 in zip(base_calls, c_before, calls_of(loaded))]
                 live_stepped = True
-                if tree_digest(tree) != d_loaded:
+                k += max(len(d_live) - 1, 0)
+                if desc.get("use_cache") and desc.get("shared_counter") is None:
+                    res.flags["objective invocations of restored and live tree compared (memoising problem)"] += 1
+                    if real_loaded != real_live:
+                        res.add_violation(ID, "C19/continuation-differs:objective-invocations", f"over the next {len(d_live)} metaepoch(s) the tree restored from the snapshot at boundary {k} invoked the objective "
+                                          f"{real_loaded} times, the live tree {real_live} times (a memo that was not part of the snapshot)", {}, rep)
+                if d_live != d_loaded:
                     res.add_violation(ID, "C19/continuation-differs", f"from identical generator states the tree restored from the snapshot at boundary {k} of {desc['engines']} "
                                       f"performs a different next metaepoch than the live tree (state lost or detached by the snapshot)", {}, rep)
                 else:
@@ -283,7 +302,9 @@ def run_world(res, desc, tmpdir):
                 invariants(res, loaded, L, desc, where, rep)
                 cur = calls_of(loaded)
                 lv = [sum(d.n_evaluations for d in lvl) for lvl in loaded.levels]
-                if len(cur) == 1 and len(lv) > 1:
+                if desc.get("use_cache"):
+                    lv_cmp = []  # (with a memoising problem the counters count requests, not invocations)
+                elif len(cur) == 1 and len(lv) > 1:
                     # one counter for all levels (a shared callable / a module-level log)
                     res.flags["continued with one evaluation counter shared by all levels"] += 1
                     if sum(lv) - sum(base_levels) != cur[0] - base_calls[0]:
@@ -292,6 +313,8 @@ def run_world(res, desc, tmpdir):
                     lv_cmp = []
                 else:
                     lv_cmp = range(len(lv))
+                if desc.get("use_cache"):
+                    lv_cmp = []
                 for i in lv_cmp:
                     if lv[i] - base_levels[i] != cur[i] - base_calls[i]:
                         res.add_violation(ID, "C19/continued:accounting", f"{where}: level {i} counters grew by {lv[i] - base_levels[i]}, objective invoked {cur[i] - base_calls[i]} times since the restore", {}, rep)
@@ -392,6 +415,13 @@ def worlds(tier, seed):
     for j, eng in enumerate([("SEA", "DE"), ("DE",)] if tier == "thorough" else [("DE",)]):
         out.append(dict(engines=list(eng), gens=2, Mh=28, pop=100, seed=s + j, hib=False, lambda_obj=bool(j % 2), obj="sphere_in", maximize=bool(j % 2), max_continue=2, stats_wrapper=True, snapshot_every=9,
                         sprout={"kind": "simple", "L": 1}, lsc=[None] * len(eng)))
+    # SHADE / DE trees compared with the live tree over THREE metaepochs; memoising problems (use_cache=True)
+    for j, eng in enumerate([("SHADE",), ("SHADE", "DE"), ("DE", "SHADE"), ("SEA", "SHADE")]):
+        out.append(dict(engines=list(eng), gens=2, Mh=9, seed=s + j, hib=False, lambda_obj=False, obj=("twofunnel", "sphere_in")[j % 2], maximize=bool(j % 2), twin_steps=3, max_continue=1, pop=(6, 10)[j % 2],
+                        sprout={"kind": "simple", "L": 2}, lsc=[None] + [{"kind": "metaepoch", "m": 3}] * (len(eng) - 1)))
+    for j, eng in enumerate([("DE", "DE"), ("SEA", "LOC"), ("DE", "SEA"), ("LHS", "DE", "LOC")]):
+        out.append(dict(engines=list(eng), gens=1, Mh=7, seed=s + j, hib=bool(j % 2), lambda_obj=False, obj="twofunnel", maximize=bool(j % 2), use_cache=True, max_continue=2,
+                        sprout={"kind": "simple", "L": 2, "far": 0.02}, lsc=[None] + [{"kind": "metaepoch", "m": 2}] * (len(eng) - 1)))
     # objective undefined (NaN) on half of the box: comparisons among NaN individuals draw from Python's `random`
     for j, eng in enumerate([("SEA", "DE"), ("DE", "SHADE"), ("LHS", "SEAX"), ("GA",), ("SHADE", "SOB")]):
         for hib in (False, True):
